@@ -7,6 +7,7 @@ mod geom;
 mod p_dim;
 mod p_geo;
 mod p_nn;
+mod p_poly;
 mod p_pred;
 mod p_exact;
 mod p_struct;
